@@ -32,6 +32,23 @@ pub enum SchedPoint {
     Publish,
 }
 
+/// Steps of the collector / task protocol of an `Evaluator`
+#[derive(Debug, Clone, Copy, PartialEq, Eq)]
+pub enum ProtoEvent {
+    /// `try_image`: image number `nth` is about to be spawned
+    Submit(usize),
+    /// The spawned task for image `nth` begins (before it counts itself as executed)
+    TaskStart(usize),
+    /// The spawned task for image `nth` is about to return (and drop its sender)
+    TaskEnd(usize),
+    /// `get_best_candidate` dropped the evaluator's own sender
+    DropSender,
+    /// `get_best_candidate` saw every submitted task started
+    SpinExit,
+    /// `get_best_candidate` drained the channel
+    Done,
+}
+
 /// Observer interface; every method has a no-op default
 pub trait Tap: Send + Sync {
     /// An image was submitted to an evaluator
@@ -56,6 +73,8 @@ pub trait Tap: Send + Sync {
     fn evaluator(&self, _eval: usize, _filters: &[RowFilter], _deflater: Deflaters, _final_round: bool) {}
     /// An evaluator's initial bound was set
     fn best_size(&self, _eval: usize, _size: usize) {}
+    /// A step of the collector / task protocol
+    fn proto(&self, _eval: usize, _event: ProtoEvent) {}
 }
 
 static TAP: RwLock<Option<Arc<dyn Tap>>> = RwLock::new(None);
